@@ -150,7 +150,7 @@ pub fn check_plane_point(q: P2, face: usize, worst: &Mutex<[f64; 3]>) -> Vec<Vio
 pub fn sphere_vectors(tier: &str) -> Vec<(V3, &'static str)> {
     let n = if tier == "quick" { 65536 } else { 4194304 };
     let mut pts: Vec<(V3, &'static str)> = rg::fibonacci(n).into_iter().map(|v| (v, "uniform")).collect();
-    for p in en::frame_points(tier != "quick") {
+    for p in en::frame_points_ladder(tier != "quick", 2) {
         pts.push((p.v, p.tag));
     }
     for (lon, lat, tag) in en::caps_lonlat() {
@@ -256,7 +256,7 @@ fn probe_clear(q: P2, radius: f64) -> bool {
 pub fn run_c16(tier: &str) -> Report {
     let mut rep = Report::new("exploration");
     let expected = geo::area_scale();
-    let radii: &[f64] = if tier == "quick" { &[1e-3, 1e-5] } else { &[1e-3, 1e-4, 1e-5, 1e-6, 1e-7] };
+    let radii: &[f64] = if tier == "quick" { &[1e-3, 1e-6, 1e-9] } else { &[1e-3, 1e-4, 1e-5, 1e-6, 1e-7, 1e-8, 1e-9, 3e-10] };
     let rots: &[f64] = if tier == "quick" { &[0.3, 1.1] } else { &[0.3, 1.1, 2.0, 2.9] };
     let splits = 16;
     // base lattice + points at 2 probe radii on either side of every seam and of the face edge
@@ -278,6 +278,17 @@ pub fn run_c16(tier: &str) -> Report {
                 for side in [-1.0, 1.0] {
                     let x = rin + side * 2.0 * rad;
                     base.push(([x * a.cos() - t * a.sin(), x * a.sin() + t * a.cos()], "edge-adjacent"));
+                }
+            }
+        }
+    }
+    // probes right next to the face centre (where all ten triangles meet) for the small radii
+    for &rad in radii {
+        if rad <= 1e-6 {
+            for k in 0..10 {
+                let a = (36.0 * k as f64 + 18.0) * rg::DEG;
+                for m in [2.0, 5.0, 40.0] {
+                    base.push(([m * rad * a.cos(), m * rad * a.sin()], "near-centre"));
                 }
             }
         }
